@@ -153,12 +153,16 @@ def _excited_case(g, tier, method=None, name=None, xmethod=None, layout=None):
     pool = [n for n in EXCITED_POOL if gen.available(n, method)]
     name = name or pool[int(g.integers(0, len(pool)))]
     xm = xmethod or ["cis", "rpa"][int(g.integers(0, 2))]
-    active = int(g.integers(1, 4))
+    Z = gen.molecule(name)[0]
+    norb = sum(4 if z > 1 else 1 for z in Z)
+    nocc = sum(gen.VALENCE[z] for z in Z) // 2
+    nov = nocc * (norb - nocc)
+    active = int(g.integers(1, max(2, min(4, nov - 1))))
     layout = layout or ["single", "single", "homog"][int(g.integers(0, 3))]
     case = {"kind": "lib", "mol": name, "method": method, "conv": [[2], [1], [0, 0.3]][int(g.integers(0, 3))], "sp2": None,
             "uhf": False, "modes": ["analytical", "autodiff-scfb1"], "orient": _orient_generic(), "layout": layout,
             "sigma": 0.05, "seed": int(g.integers(0, 2**31)),
-            "excited": {"method": xm, "n_states": active + 2, "active": active}}
+            "excited": {"method": xm, "n_states": min(active + 2, nov), "active": active}}
     if layout == "homog":
         case["nrows"] = 2
     return case
@@ -299,7 +303,7 @@ def _batch_arrays(case, rows):
 def _directions(case, Z, X, g):
     n = len(Z)
     dirs, labels = [], []
-    if 3 * n <= 18:
+    if 3 * n <= 12:
         for a in range(n):
             for c in range(3):
                 d = np.zeros((n, 3))
@@ -345,7 +349,14 @@ def fd_energy_derivatives(Z, X, q, m, sett, dirs, excited=None):
         for h in HS:
             geoms.append(X + h * d)
             geoms.append(X - h * d)
-    out = run.single_point([Z] * len(geoms), np.stack(geoms), sett, charges=q, mult=m)
+    # energies only: the public `do_force=False` path of Electronic_Structure.forward (no gradient work at all for
+    # the reverse-mode settings); the centre row is compared with the Etot of the call under test by the caller
+    with run.quiet():
+        mol, es, _ = run.build([Z] * len(geoms), np.stack(geoms), sett, q, m)
+        es(mol, do_force=False)
+    out = {"Etot": run.npy(mol.Etot), "notconverged": run.npy(getattr(es, "notconverged", None)),
+           "cis_energies": run.npy(getattr(mol, "cis_energies", None))}
+    del mol, es
     E = out["Etot"]
     nc = out["notconverged"]
     nc = np.zeros(len(geoms), bool) if nc is None else np.asarray(nc, bool).reshape(-1)
@@ -395,8 +406,9 @@ def hpp_floor_elements(method):
     return out
 
 
-def on_x_pole(Z, X, thresh=1e-3):
-    """some pair vector involving a heavy atom lies within `thresh` rad of +x or -x"""
+def on_x_pole(Z, X, thresh=4.6e-4):
+    """some pair vector involving a heavy atom lies within `thresh` rad of +x or -x (rotate_with_quaternion freezes
+    the frame when |1 + v_x| < 1e-7, i.e. inside 4.47e-4 rad of the pole; nothing wider is classified)"""
     n = len(Z)
     for i in range(n):
         for j in range(i + 1, n):
@@ -477,9 +489,24 @@ def run_case(case):
     for mode in modes:
         sett = _settings(case, mode)
         keep = mode == modes[0]
-        o = run.single_point(S if len(rows) > 1 else S[0], C if len(rows) > 1 else C[0], sett, charges=qarg, mult=marg,
-                             keep=keep)
+        try:
+            o = run.single_point(S if len(rows) > 1 else S[0], C if len(rows) > 1 else C[0], sett, charges=qarg,
+                                 mult=marg, keep=keep)
+        except Exception as e:
+            if exc and "Maximum number of roots" in str(e):
+                # the package rejects the request loudly (more roots than n_occ*n_virt): outside C01's domain
+                return {"ineligible": "excited-state request rejected by the package: %s" % str(e)[:80],
+                        "monitors": mon}
+            raise
         mon["force_calls"] += 1
+        if keep:
+            nc0 = o["notconverged"]
+            if nc0 is not None and bool(np.asarray(nc0).reshape(-1)[check].all()):
+                # nothing can be judged on rows the package itself flags as not converged; skip the remaining
+                # evaluators and the difference quotients (they would only burn MAX_ITER iterations each)
+                mon["rows_not_converged"] += len(check)
+                return {"ineligible": "SCF flagged not converged at x for every checked row", "monitors": mon,
+                        "cells": ["notconverged/%s/%s" % (case["method"], case.get("mol") or "%d-%d" % tuple(case["pair"]))]}
         if keep:
             try:
                 from vlib import obs14
@@ -604,7 +631,7 @@ def run_case(case):
                         mon["axis_aligned_dirs_compared"] += 1
                     name = ("fd_sp2/" if case.get("sp2") else ("fd_excited/" if exc else "fd/")) + mo
                     over = upd(name, err, tol)
-                    upd("fd_error_estimate", fd["est"][k], EST_ABS + EST_REL * abs(fd["D"][k]))
+                    obs["max_fd_error_estimate"] = max(obs.get("max_fd_error_estimate", 0.0), float(fd["est"][k]))
                     if over and (worst is None or err / tol > worst[0]):
                         worst = (err / tol, k, fdotd, fd["D"][k], fd["est"][k], tol)
                 if worst is not None:
